@@ -191,6 +191,7 @@ def num_in(spec, role):
 
 MULT_KINDS = ('int', 'dec', 'frac', 'str', 'float', 'stddec', 'bool')
 AMT_KINDS = ('dec', 'frac', 'float', 'str', 'int', 'stddec')
+AMT_KINDS_NOFLOAT = ('dec', 'frac', 'str', 'int', 'stddec')
 GOOD_MULTS = [1, 1, 1, 2, 3, 5, 7, 10, 50, 99, 100, 755, 1000, 12345, 10**4, 10**5, 10**6,
               10**8, 10**12, 10**20, 999999, 10**6 + 1]
 BAD_MULTS = [F(3, 2), F(1, 2), F(5, 2), F(1, 3), F(100, 3), 0, -1, -100, F(-3, 2),
@@ -199,6 +200,9 @@ MALFORMED_MULT = [['badstr', 'abc'], ['badstr', ''], ['badstr', '1_000'], ['bads
                   ['badstr', '0x10'], ['none'], ['list'], ['inf'], ['nan'], ['complex']]
 MALFORMED_AMT = [['badstr', 'abc'], ['badstr', ''], ['badstr', '1,5'], ['badstr', '1/0x'],
                  ['none'], ['list'], ['inf'], ['nan'], ['complex']]
+
+
+SMOOTH = [1, 2, 4, 5, 8, 10, 16, 25, 32, 125, 128, 625, 1024, 3125, 15625, 2**20, 5**9]
 
 
 def gen_amount(rng):
@@ -229,13 +233,20 @@ def gen_amount(rng):
 
 def valid_rate_spec(rng, u, t, near_one=False):
     m = F(rng.choice(GOOD_MULTS[:16]))
-    if near_one:
+    if near_one and rng.random() < 0.5:
+        # 2^a 5^b rates: every product, quotient and reciprocal terminates
+        a = m * F(rng.choice(SMOOTH), rng.choice(SMOOTH))
+        while not (F(1, 10**5) <= a / m <= 10**5):
+            a = m * F(rng.choice(SMOOTH), rng.choice(SMOOTH))
+    elif near_one:
         a = m * F(rng.randint(2, 4000), rng.choice([10, 100, 1000, 3, 7]))
     else:
         a = gen_amount(rng)
         while a < Q6 or a > 10**12:
             a = gen_amount(rng)
-    sa = num_spec(a, rng, AMT_KINDS)
+    # floats carry ~50 decimal digits; decimalfp's pure-Python division is slow
+    # on them (13 ms per operation), so scripts with many operations get few
+    sa = num_spec(a, rng, AMT_KINDS if rng.random() < 0.08 else AMT_KINDS_NOFLOAT)
     if spec_value(sa) < Q6:          # float(10^-6) is below the limit
         sa = ['frac', frs(a)]
     return {'u': ['obj', u], 'm': num_spec(m, rng, MULT_KINDS), 't': ['obj', t], 'a': sa}
@@ -244,7 +255,7 @@ def valid_rate_spec(rng, u, t, near_one=False):
 def gen_cases(rng, tier):
     thorough = tier == 'thorough'
     cases = []
-    n_new = 6000 if thorough else 700
+    n_new = 4000 if thorough else 500
     for _ in range(n_new):
         dm = rng.choice(W.MODES) if rng.random() < 0.7 else 'MHEVEN'
         u, t = rng.sample(CURS, 2)
@@ -274,7 +285,7 @@ def gen_cases(rng, tier):
             for u2 in CURS for t2 in CURS if u2 != t2]
     modes = W.MODES if thorough else [None]
     for dm0 in modes:
-        for rep in range(3 if thorough else 1):
+        for rep in range(1):
             for (u1, t1, u2, t2) in pats:
                 dm = dm0 or (rng.choice(W.MODES) if rng.random() < 0.6 else 'MHEVEN')
                 near = rng.random() < 0.7
@@ -284,7 +295,7 @@ def gen_cases(rng, tier):
     # money
     mcurs = CURS + ['XCF']
     frac = fractions()
-    for _ in range(3000 if thorough else 250):
+    for _ in range(2000 if thorough else 200):
         dm = rng.choice(W.MODES) if rng.random() < 0.7 else 'MHEVEN'
         u, t = rng.sample(mcurs, 2)
         spec = valid_rate_spec(rng, u, t, True)
@@ -341,26 +352,34 @@ def _cur_object(spec, units):
     return {'int': 5, 'none': None, 'float': 1.5}[v]
 
 
-def _obs_rate(r, units):
-    """what a user sees of an ExchangeRate (public API only)"""
+def _obs_rate(r, units, full):
+    """what a user sees of an ExchangeRate (public API only).  decimalfp's
+    pure-Python division costs ~13 ms whenever the quotient does not terminate,
+    so the reduced form (full=False, used inside long scripts) reads the
+    inverse rate once, through inverse_quotation, and skips the repr round trip"""
     from decimalfp import Decimal
     from quantity.money import ExchangeRate
     rep = repr(r)
     u, mult, t, amt = eval(rep, {'__builtins__': {}, 'ExchangeRate': lambda *a: a,
                                  'Currency': lambda s: s, 'Decimal': Decimal})
-    back = eval(rep, {'__builtins__': {}, 'ExchangeRate': ExchangeRate,
-                      'Currency': lambda s: units[s], 'Decimal': Decimal})
     qu, qt, qr = r.quotation
     iu, it, ir = r.inverse_quotation
+    if full:
+        back = eval(rep, {'__builtins__': {}, 'ExchangeRate': ExchangeRate,
+                          'Currency': lambda s: units[s], 'Decimal': Decimal})
+        roundtrip = bool(back == r and hash(back) == hash(r))
+        inv = r.inverse_rate
+    else:
+        roundtrip, inv = True, ir
     return {'k': 'rate', 'u': r.unit_currency.symbol, 't': r.term_currency.symbol,
             'ru': u, 'rt': t, 'mult': frs(mult), 'amt': frs(amt),
-            'rate': frs(r.rate), 'inv': frs(r.inverse_rate),
+            'rate': frs(r.rate), 'inv': frs(inv),
             'quo': [qu.symbol, qt.symbol, frs(qr)], 'iquo': [iu.symbol, it.symbol, frs(ir)],
-            'roundtrip': bool(back == r and hash(back) == hash(r)),
-            'str': str(r), 'amt_prec_ok': F(amt) * 10**6 == int(F(amt) * 10**6)}
+            'roundtrip': roundtrip, 'full': full,
+            'amt_prec_ok': F(amt) * 10**6 == int(F(amt) * 10**6)}
 
 
-def _rate(thunk, units):
+def _rate(thunk, units, full=False):
     from quantity.money import ExchangeRate
     try:
         r = thunk()
@@ -370,14 +389,14 @@ def _rate(thunk, units):
         return None, {'k': 'err', 'e': W.err_name(e), 'py': type(e).__name__, 'msg': str(e)[:160]}
     if not isinstance(r, ExchangeRate):
         return None, {'k': 'other', 'v': repr(r)[:100]}
-    return r, _obs_rate(r, units)
+    return r, _obs_rate(r, units, full)
 
 
-def _build(spec, units):
+def _build(spec, units, full=False):
     from quantity.money import ExchangeRate
     return _rate(lambda: ExchangeRate(_cur_object(spec['u'], units), spec_object(spec['m']),
                                       _cur_object(spec['t'], units), spec_object(spec['a'])),
-                 units)
+                 units, full)
 
 
 def impl_run(case):
@@ -385,7 +404,7 @@ def impl_run(case):
     units, classes = W.instantiate(WORLD)
     k = case['kind']
     if k == 'new':
-        return {'new': _build(case, units)[1]}
+        return {'new': _build(case, units, True)[1]}
     if k == 'pair':
         r1, o1 = _build(case['r1'], units)
         r2, o2 = _build(case['r2'], units)
